@@ -1,6 +1,7 @@
 import WsModel.Context
 import WsModel.Endpoint
 import WsModel.Spec.Rfc6455
+import WsModel.Monitor
 
 /-! Line-protocol driver: replays harness transcripts through the model and prints the model's
 observations in the same canonical form, so the two streams can be diffed. -/
@@ -366,6 +367,10 @@ def monPure (inp : List String) (implOut : List String) : List String :=
     if la.toNat? != some ba.length || lb.toNat? != some bb.length then ["mon C18 FAIL frame-len"]
     else if unhex wire != ba ++ bb then ["mon C18 FAIL encoders-differ"]
     else ["mon C18 ok"]
+  | ["utf8", h], "out" :: "std" :: verdict :: _ =>
+    -- C08: the real from_utf8 against Table 3-7
+    let wf := Spec.wellFormedB (unhex h)
+    if (verdict == "ok") == wf then ["mon C08 ok"] else [s!"mon C08 FAIL from-utf8-disagrees-with-table bytes={h}"]
   | ["mask", key, _align, h], ["out", got, canary] =>
     let want := hex (applyMask (parseMask key) (unhex h))
     if got == want && canary == "canary=ok" then ["mon C19 ok"]
@@ -383,6 +388,7 @@ structure St where
 partial def runCase (lines : Array String) : Array String := Id.run do
   let mut out : Array String := #[]
   let mut st : St := {}
+  let mut ic : Mon.ImplCase := {}
   let mut i := 0
   while i < lines.size do
     let line := lines[i]!
@@ -392,21 +398,27 @@ partial def runCase (lines : Array String) : Array String := Id.run do
       out := out.push line
       let (role, cfg, pre) := parseCfg toks
       st := { st with role := role, cfg := cfg, pre := pre }
+      ic := { ic with role := role, cfg := cfg, pre := pre }
       i := i + 1
     | "op" :: rest =>
       out := out.push line
       -- gather the implementation's output lines of this op
       let mut j := i + 1
       let mut ev : Events := {}
+      let mut iop : Mon.ImplOp := { body := rest.filter (fun t => !t.startsWith "m=") }
       while j < lines.size do
         let t := words lines[j]!
         match t with
-        | "io" :: evs => ev := parseIo evs; j := j + 1
-        | "res" :: _ => j := j + 1
-        | "wire" :: _ => j := j + 1
-        | "can" :: _ => j := j + 1
-        | "new" :: _ => j := j + 1
+        | "io" :: evs => ev := parseIo evs; iop := { iop with io := evs.filter (· != "-") }; j := j + 1
+        | "res" :: r => iop := { iop with res := r }; j := j + 1
+        | "wire" :: w :: _ => iop := { iop with wire := unhex w }; j := j + 1
+        | "can" :: cs => iop := { iop with canR := kv cs "r" == some "1", canW := kv cs "w" == some "1" }; j := j + 1
+        | "new" :: r =>
+          if r.head? != some "ok" then
+            ic := { ic with newOk := false }
+          j := j + 1
         | _ => break
+      ic := { ic with ops := ic.ops.push iop }
       i := j
       -- create the socket at the first op
       if st.world.isNone && !st.failedNew then
@@ -424,10 +436,18 @@ partial def runCase (lines : Array String) : Array String := Id.run do
         let (w', ls) := runOp w body (parseMasks toks) ev
         st := { st with world := some w' }
         for l in ls do out := out.push l
-    | tag :: _ =>
+    | tag :: rest =>
       if tag == "io" || tag == "res" || tag == "wire" || tag == "can" || tag == "new" then
         i := i + 1   -- stray implementation line
+      else if tag == "end" then
+        for m in Mon.all ic do out := out.push m
+        out := out.push line
+        i := i + 1
       else
+        if tag == "peer" then
+          ic := { ic with peer := ic.peer ++ unhex (rest.headD "-") }
+        if tag == "expect" then
+          ic := { ic with expects := ic.expects ++ [" ".intercalate rest] }
         out := out.push line
         i := i + 1
     | [] => i := i + 1
